@@ -739,6 +739,10 @@ func isErrorMethod(c *ssa.CallCommon) bool {
 func (fv *FnVerifier) applyContract(fc *FuncContract, obj *types.Func, sig *types.Signature, args []Val, st *State, pos token.Pos, resName string, ifaceT types.Type) Val {
 	reach := fv.reach[fv.curBlock]
 	callee := fc.Key
+	if len(fc.Params) != sig.Params().Len() {
+		// a contract whose header no longer matches the function says nothing about it (all the more when it is trusted)
+		unsupported("contract header of %s lists %d parameters, the function has %d: the contract no longer describes this function", callee, len(fc.Params), sig.Params().Len())
+	}
 	names := map[string]Val{}
 	ai := 0
 	hasRecv := sig.Recv() != nil || ifaceT != nil
